@@ -91,6 +91,11 @@ fn gen_pattern(rng: &mut Rng) -> String {
                 "{a{b,c},d}-1.0",
                 "{foo,{bar,{baz,f}}}*",
                 "{foo,bar}-{1,2}.0",
+                "foo{-bar,}-[0-9]*",
+                "{foo,}*",
+                "foo{}-1.0",
+                "{foo,bar,}-[0-9]*",
+                "fo{o,}{,-bar}>=1.0",
             ])
             .to_string(),
         12 => "foo*".to_string(),
